@@ -180,6 +180,48 @@ def _i3_idgen(run: Run) -> None:
             run.violate("I3", f"{IDGEN}:next_id:return", m, r.ast, "next_id does not return the value it stored")
 
 
+def wrapper_render_identity(run: Run, rid: str) -> None:
+    """everything a printer reads off a symbolic wrapper is part of its identity (used by C18): two wrappers that compare equal are interchangeable for SymPy's
+    cache of constructed expressions (Mul, Pow, Add ... are memoised on their arguments), so a flag outside the hashable content is taken from the twin built first"""
+    src = run.src
+    sm = src.mods.get(PKG + ".core.operations.symbolic")
+    if sm is None:
+        raise AnalysisError("core/operations/symbolic.py not found")
+    scls = next((c for c in sm.tree.body if isinstance(c, ast.ClassDef) and c.name == "Symbolic"), None)
+    if scls is None:
+        raise AnalysisError("class Symbolic not found")
+    hc = next((f_ for f_ in scls.body if isinstance(f_, ast.FunctionDef) and f_.name == "_hashable_content"), None)
+    sub_names = {c.name for c in sm.tree.body if isinstance(c, ast.ClassDef)}
+    set_attrs = {t.attr for f_ in scls.body if isinstance(f_, ast.FunctionDef) and f_.name in ("__new__", "__init__") for st in ast.walk(f_) if isinstance(st, ast.Assign)
+                 for t in st.targets if isinstance(t, ast.Attribute) and isinstance(t.value, ast.Name) and t.value.id in ("self", "obj")}
+    printer_reads = set()
+    for pn in (PKG + ".docs.printer_latex", PKG + ".docs.printer_code"):
+        pmod = src.mods.get(pn)
+        if pmod is None:
+            continue
+        for f_ in [x for x in ast.walk(pmod.tree) if isinstance(x, ast.FunctionDef) and x.name.startswith("_print_") and x.name[len("_print_"):] in sub_names]:
+            params = [a.arg for a in f_.args.args[1:2]]
+            for x in ast.walk(f_):
+                if isinstance(x, ast.Attribute) and isinstance(x.value, ast.Name) and x.value.id in params and x.attr in set_attrs:
+                    printer_reads.add(x.attr)
+    in_identity = set()
+    if hc is not None:
+        for x in ast.walk(hc):
+            if isinstance(x, ast.Attribute) and isinstance(x.value, ast.Name) and x.value.id == "self":
+                in_identity.add(x.attr)
+            if isinstance(x, ast.Call) and dotted(x.func) == "getattr" and len(x.args) >= 2 and isinstance(x.args[1], ast.Constant):
+                in_identity.add(x.args[1].value)
+    for a_ in sorted(printer_reads):
+        run.ob(rid, f"Symbolic:identity-includes:{a_}")
+        if a_ not in in_identity:
+            run.violate(rid, f"symbolic-wrapper:identity:{a_}", sm, hc or scls,
+                        f"the printers read `{a_}` of a symbolic wrapper but it is not part of Symbolic._hashable_content: a wrapper built with `{a_}=True` compares equal to "
+                        f"its twin without it, and SymPy's cache of constructed expressions returns the product/power built first - `c*FiniteDifference(a + b, wrap_latex=True)` "
+                        f"renders with or without brackets depending on what was constructed before")
+    if not printer_reads:
+        raise AnalysisError("the printers read no attribute of the symbolic wrappers: anchor lost")
+
+
 def check(run: Run) -> None:
     run.rule("I1", "import-order independence: name-dependency graph acyclic; simulated first-import of every module finds every imported name bound")
     run.rule("I2", "module-level attribute reads on imported catalogue/core modules resolve to a top-level binding")
